@@ -534,6 +534,10 @@ class GateMemoizer:
         """Basically just replace all lists with tuples, recursively."""
         if isinstance(obj, (list, tuple)):
             return tuple(cls._make_hashable(v) for v in obj)
+        elif isinstance(obj, (int, float)):
+            # 1 == 1.0 and 0.0 == -0.0 as dictionary keys, but they are
+            # different arguments
+            return (type(obj).__name__, repr(obj))
         else:
             return obj
 
